@@ -442,6 +442,9 @@ class OpsMixin:
             try:
                 ta, tb = box(a), box(b)
             except TypeError:
+                if ex.spec:
+                    yield p, V.fresh("eq_unknown", BoolS)      # not expressible: an unconstrained truth value
+                    return
                 raise Unsupported("equality of %r and %r" % (a, b))
             if ex.spec:
                 yield p, ta == tb          # contract language: structural equality of boxed values
